@@ -14,22 +14,6 @@ Local Open Scope N_scope.
 Ltac Zify.zify_post_hook ::= Z.div_mod_to_equations.
 
 (** ---- descriptions and descendants ---- *)
-Lemma Desc_kids_in g pl : forall r, Desc g pl r -> forall y c, In y (rnodes r) -> In c (kids g y) -> In c (rnodes r).
-Proof.
-  induction r as [i a ks IH] using rose_ind2. intros Hd y c Hy Hc. destruct (Desc_inv _ _ _ _ _ Hd) as (Hp & Hk & Hks).
-  rewrite rnodes_eq in Hy |- *. destruct Hy as [<-|Hy].
-  - rewrite Hk in Hc. apply in_map_iff in Hc. destruct Hc as (r & <- & Hr). right. unfold rnodesl. apply in_flat_map.
-    exists r. split; [exact Hr|]. destruct r. rewrite rnodes_eq. left. reflexivity.
-  - right. unfold rnodesl in *. apply in_flat_map in Hy. destruct Hy as (r & Hr & Hyr). apply in_flat_map. exists r. split; [exact Hr|].
-    rewrite Forall_forall in IH, Hks. apply (IH r Hr (Hks r Hr) y c Hyr Hc).
-Qed.
-
-Lemma desc_in_tree g pl r : Desc g pl r -> forall y, desc g (ridx r) y -> In y (rnodes r).
-Proof.
-  intros Hd y Hy. induction Hy as [|p c Hy IH Hin].
-  - destruct r. rewrite rnodes_eq. left. reflexivity.
-  - eapply Desc_kids_in; eauto.
-Qed.
 
 Lemma floop_size g pl : forall l f, Forall (Desc g pl) l -> (3 * rsizes l + 1 <= f)%nat -> floop g f (map ridx l).
 Proof.
@@ -40,7 +24,7 @@ Qed.
 
 Lemma merge_ok_f1 H0 i a ks : f1_okE (RN i a ks) -> merge_ok H0 a.
 Proof.
-  intros (h0 & tbl0 & Hk). revert Hk. cbn [f1_ok]. intros [(nm & ->)|[(bk & off & nm & p & po & rest & -> & _)|[(off & w & v & -> & _)|[(off & ->)|[(off & -> & _)|[(off & nm & p & po & c & co & d & -> & _ & _)|[(off & d & -> & Hc & _)|[(lk & off & nm & p & po & rest & -> & _)|(off & bs & -> & _)]]]]]]]];
+  intros (h0 & tbl0 & Hk). revert Hk. cbn [f1_ok]. intros [(nm & ->)|[(bk & off & nm & p & po & rest & -> & _)|[(off & w & v & -> & _)|[(off & ->)|[(off & -> & _)|[(off & nm & p & po & c & co & d & -> & _ & _)|[(off & d & -> & Hc & _)|[(lk & off & nm & p & po & rest & -> & _)|[(off & bs & -> & _)|[(off & nm & p & po & rest & -> & _)|(off & ->)]]]]]]]]]];
     try (do 3 eexists; split; [reflexivity|right; reflexivity]).
   - destruct bk; (do 3 eexists; split; [reflexivity|right; reflexivity]).
   - destruct w; (do 3 eexists; split; [reflexivity|right; reflexivity]).
@@ -52,7 +36,7 @@ Qed.
 Lemma f1_okE_live i a ks : f1_okE (RN i a ks) -> y_op a <> opFreed.
 Proof.
   intros (h0 & tbl0 & Hk1). cbn [f1_ok] in Hk1.
-  destruct Hk1 as [(nm & ->)|[(bk0 & ? & ? & ? & ? & ? & -> & _)|[(? & w0 & ? & -> & _)|[(? & ->)|[(? & -> & _)|[(? & ? & ? & ? & ? & ? & ? & -> & _ & _)|[(? & d & -> & Hc & _)|[(lk0 & ? & ? & ? & ? & ? & -> & _)|(? & ? & -> & _)]]]]]]]]; try discriminate; try (destruct bk0; discriminate); try (destruct w0; discriminate); try (destruct lk0; discriminate).
+  destruct Hk1 as [(nm & ->)|[(bk0 & ? & ? & ? & ? & ? & -> & _)|[(? & w0 & ? & -> & _)|[(? & ->)|[(? & -> & _)|[(? & ? & ? & ? & ? & ? & ? & -> & _ & _)|[(? & d & -> & Hc & _)|[(lk0 & ? & ? & ? & ? & ? & -> & _)|[(? & ? & -> & _)|[(? & ? & ? & ? & ? & -> & _)|(? & ->)]]]]]]]]]]; try discriminate; try (destruct bk0; discriminate); try (destruct w0; discriminate); try (destruct lk0; discriminate).
   cbn [cst_pay y_op]. destruct (is_constb_cases _ Hc) as [E|[E|[E|[E|[E|[E|E]]]]]]; rewrite E; discriminate.
 Qed.
 
@@ -183,7 +167,7 @@ Proof.
 Qed.
 
 Lemma lay2_item_single h' tbl' b off it : exists a ks, lay2_item h' tbl' b off it = [RN b a ks].
-Proof. destruct it as [d|bk k seg fa body|lk seg fa ta]; [cbn [lay2_item]|rewrite lay2_blk|cbn [lay2_item]]; eauto. Qed.
+Proof. destruct it as [d|bk k seg fa body|lk seg fa ta|seg k n elems]; [cbn [lay2_item]|rewrite lay2_blk|cbn [lay2_item]|cbn [lay2_item]]; eauto. Qed.
 
 Lemma MInv_ext g pl KT KT' M M' b b' off off' ts :
   KT = KT' -> (forall d, M d = M' d) -> b = b' -> off = off' -> MInv g pl KT M b off ts -> MInv g pl KT' M' b' off' ts.
